@@ -2013,6 +2013,10 @@ def c16(tier):
         groups.append([({"input": t}, None), ({"input": d if ents else d.rstrip("\r\n")}, {"kind": "legend", "of": 1})])
     rel_events(run, groups, "C16app")
     run.validate(shard=1200)
+    # stage-level conformance of the tag family, the enclosure stage included (PipelineTrace "enclose": the forest the code
+    # built against Stages!EncloseAll on the elements it was given)
+    from . import stages
+    stages.conformance(run, [c[0] for c in cases if c[1] == "C16tags"][:300 if tier == "quick" else 20000])
     # the model forwards on the legend and tag families themselves
     full_conformance(run, [c[0] for c in cases], "C16G", 250 if tier == "quick" else 6000)
     run.assumptions = std_assumptions() + ["'lying inside' is read as: the tag's cells lie inside the shape's bounding box"]
@@ -2206,6 +2210,18 @@ def c01(tier):
     # structures whose grouping needs one merge pass per element (a bound on the number of passes turns into a panic
     # or a wrong result): wide combs and hatched triangles
     texts += big + ["| " * k_ + "\n" + "+-" * k_ for k_ in (70, 150, 300)] + [gen.hatch_grid(r) for _ in range(6)] + [gen.comb_grid(r) for _ in range(12)]
+    # one connected group of many thousand cells (a recursion over the cells of a group must not be as deep as the group
+    # is large: the conversions run on a 2 MiB stack, the default of a spawned thread)
+    texts += ["-" * 25000, "|\n" * 25000, "+" + "-" * 398 + "+\n" + ("|" + " " * 398 + "|\n") * 3000 + "+" + "-" * 398 + "+",
+              ("+" * 120 + "\n") * 120, "\n".join(" " * i + "\\" for i in range(390))]
+    # every short text over the alphabet of the quote scanner and of the tag parser (small-scope exhaustive: the
+    # scanners' case analysis is over a handful of characters)
+    import itertools as _it
+    shorts = []
+    for alpha_, L_ in (('"\\a ', 6 if tier == "quick" else 8), ('"\\a{},', 5 if tier == "quick" else 6)):
+        for n_ in range(1, L_ + 1):
+            shorts += ["".join(c_) for c_ in _it.product(alpha_, repeat=n_)]
+    shorts = gen.dedup(shorts)
     # the shared pool: what the generators of all the other properties produce
     texts += pool(r, tier, None, 700)
     cases = []
@@ -2220,6 +2236,14 @@ def c01(tier):
             if e == "override":
                 c["w"], c["h"] = r.choice([0.0, 1.0, 1e9]), r.choice([0.0, 7.5, 1e9])
             cases.append(c)
+    for i, t in enumerate(shorts):
+        e = ENTRIES[i % 5]
+        c = {"input": t, "entry": e}
+        if e in ("settings", "override"):
+            c["settings"] = {"scale": 8.0}
+        if e == "override":
+            c["w"], c["h"] = 100.0, 100.0
+        cases.append(c)
     obs = observe.observe(cases, tag="C01B")
     sizes = {}
     for c, o in zip(cases, obs):
@@ -2278,6 +2302,12 @@ def c07(tier):
     corpus += [gen.box(6, 1, "round", "{a}") + "\n# Legend:\na = {fill:red}", '"quoted" text 一二',
                gen.box(20, 1, "sharp", "{red,big,bold,hot}"), gen.box(12, 2, "uni", "{x1,y2,z3}") + "  ( a )--  ( b )--",
                "  ( a )--\n\n        ( a )--", gen.box(16, 1, "round", "{k1,k2,k3,k4}") + "\n# Legend:\nk1={a}\nk2={b}"]
+    # drawings of several ten thousand cells (whatever switches to another algorithm "for large inputs" is still a function of
+    # the text): the largest bundled example twice over, and a sheet of many small separate shapes with equal corners
+    bund = dict(gen.bundled_files())
+    longb = bund.get("long.bob", "").split("# Legend:")[0]
+    sheet = "\n".join("  ".join(r.choice(["+--+", "o--*", "/\\/\\", "ab c", "-->>", "(  )"]) for _ in range(70)) for _ in range(140))
+    corpus += [longb + "\n" + longb, sheet + "\n" + sheet.replace("o", "O")]
     sets = [None, {"scale": 3.0}, {"include_styles": False, "font_family": "x"}]
     reqs = []
     for i, t in enumerate(corpus):
